@@ -1,6 +1,6 @@
 """C24 -- the cursor scans of the insertion-ordered store touch the entries of THEIR key only.
 
-hio.base.during:Duror.getIoValFirst / getIoVals / popIoVal / remIoVals are interpreted from /repo/src on a sub-database holding
+hio.base.during:Duror.getIoValFirst / getIoVals / popIoVal / remIoVals / addIoVal / putIoVals are interpreted from /repo/src on a sub-database holding
 <= 3 entries with ARBITRARY io-keys and values (bounded in the number of entries, symbolic in their content; every relationship
 between the keys is covered, including a key that is a prefix of another or contains the separator).  LMDB is EXT: a transaction
 is a context manager handing out a cursor; set_range(k) puts the cursor on ANY entry or past the end (no ordering is assumed: the
@@ -13,6 +13,8 @@ With s the start position and RUN the maximal run of consecutive entries from s 
     getIoVals       returns exactly the values of RUN, in order; nothing is deleted
     popIoVal        returns and deletes the entry at s when UKEY(K[s]) = key; else returns None and deletes nothing
     remIoVals       deletes exactly RUN -- NO ENTRY OF ANOTHER KEY IS EVER DELETED -- and returns whether RUN is non-empty
+    addIoVal        writes exactly one entry: the value at SUF(key, UION(last entry of RUN) + 1), or at SUF(key, 0) for an empty RUN
+    putIoVals       writes the <= 2 given values in order at consecutive ordinals from there; both delete nothing
 so an operation on one key never changes what another key returns (the statement's second sentence), for any keys.
 """
 import z3
@@ -35,6 +37,7 @@ class Store:
         for k in self.K:
             ctx.assume(z3.Length(k.t) > 0)
         self.deleted = []
+        self.puts = []
         self.start = None
         self.set_range_arg = None
 
@@ -60,8 +63,13 @@ class Cursor:
         return (self.s.K[self.p], self.s.V[self.p]) if self._live() else (b"", b"")
 
     def m_iternext(self, ctx, r, a, k):
-        items = [(self.s.K[i], self.s.V[i]) for i in range(self.p, len(self.s.K))] if self._live() else []
+        keys_only = conc(k.get("values", True)) is False
+        items = [(self.s.K[i] if keys_only else (self.s.K[i], self.s.V[i])) for i in range(self.p, len(self.s.K))] if self._live() else []
         return ctx.alloc("list", init={"v": items})
+
+    def m_put(self, ctx, r, a, k):
+        self.s.puts.append((a[0], a[1], dict(k)))
+        return ctx.fresh("bool", "put-result")
 
     def m_delete(self, ctx, r, a, k):
         if not self._live():
@@ -111,12 +119,21 @@ def scan_contract(B, meth):
     B.prog.externals["builtins.bytes"] = lambda c, a, k: BI.as_text(c, a[0]) if a else b""
     self = B.obj(DUROR, hint="duror", env=B.ext(env), MaxSuffix=(1 << 128) - 1)
     kw = dict(sdb=sdb, key=key, sep=sep)
+    newvals = []
+    if meth == "addIoVal":
+        newvals = [B.bytes("newval")]
+        kw["val"] = newvals[0]
+    elif meth == "putIoVals":
+        newvals = [B.bytes("newval%d" % i) for i in range(B.choice(0, 1, 2, label="values-to-put"))]
+        kw["vals"] = B.list(list(newvals))
     r = B.call(self, qual=DUROR + "." + meth, **kw)
     B.no_other_exception()
     if not B.returned():
         return
     B.prove("one-transaction-on-the-given-sub-database-entered-and-left", len(env.begun) == 1 and env.begun[0].get("db") is sdb and log == ["enter", "exit"], top=True)
-    B.prove("write-transaction-iff-the-operation-deletes", bool(env.begun and conc(env.begun[0].get("write")) is (meth in ("popIoVal", "remIoVals"))), top=True)
+    B.prove("write-transaction-iff-the-operation-changes-the-store", bool(env.begun and conc(env.begun[0].get("write")) is (meth in ("popIoVal", "remIoVals", "addIoVal", "putIoVals"))), top=True)
+    if meth not in ("addIoVal", "putIoVals"):
+        B.prove("nothing-written", not store.puts, top=True)
     B.prove("scan-starts-at-the-zeroth-ordinal-of-the-key", z(BI.as_text(ctx, store.set_range_arg)) == SUF(key.t, z3.IntVal(0)) if store.set_range_arg is not None else False, top=True)
     s = store.start if store.start is not None else n
     mine = [UKEY(k.t) == key.t for k in store.K]
@@ -157,10 +174,20 @@ def scan_contract(B, meth):
         B.prove("the-whole-run-is-deleted: the-scan-stops-only-at-another-keys-entry-or-the-end",
                 (z3.Not(mine[s + len(d)]) if s + len(d) < n else True), top=True)
         B.prove("returns-whether-anything-was-deleted", conc(r) is bool(d) if isinstance(conc(r), bool) else False, top=True)
+    elif meth in ("addIoVal", "putIoVals"):
+        # next ordinal: one after the ordinal of the LAST entry of the run of the key's own entries from the cursor, 0 for an empty run
+        nxt = z3.IntVal(0)
+        for i, acc_i in in_run:
+            nxt = z3.If(acc_i, UION(store.K[i].t) + 1, nxt)
+        B.prove("nothing-deleted", not store.deleted, top=True)
+        B.prove("one-entry-written-per-value", len(store.puts) == len(newvals), top=True)
+        for j, (pk, pv, pkw) in enumerate(store.puts[:len(newvals)]):
+            B.prove("written-at-the-keys-own-next-ordinal-with-the-given-value-in-order#%d" % j,
+                    z3.And(z(BI.as_text(ctx, pk)) == SUF(key.t, nxt + j), z(BI.as_text(ctx, pv)) == newvals[j].t), top=True)
     B.prove("canary:never-finds-an-entry", s >= n)     # must FAIL on some path (vacuity guard); last
 
 
-for _m in ("getIoValFirst", "getIoVals", "popIoVal", "remIoVals"):
+for _m in ("getIoValFirst", "getIoVals", "popIoVal", "remIoVals", "addIoVal", "putIoVals"):
     def _mk(m=_m):
         @contract(DUROR + "." + m, props=["C24"], name=DUROR + "." + m + "[bounded <=3 entries; symbolic io-keys, values and key]", z3_ms=3000)
         def _c(B):
